@@ -43,7 +43,8 @@ Inductive inl :=
 | IRefLink (txt : list inl) (label url : list N) (title : option (list N))   (* [txt][label], defined at the end *)
 | IRefImage (alt label url : list N) (title : option (list N))               (* ![alt][label] *)
 | IFoot (k : nat)                       (* call of footnote number k of the document (used once) *)
-| ISoft.                                (* line break inside a paragraph that is not a hard break *)
+| ISoft                                 (* line break inside a paragraph that is not a hard break *)
+| ITight (l : list inl).                (* elements written without blanks between them: _word_'s, well-*known* *)
 
 Inductive align := ALeft | ACenter | ARight | ANone.
 (* a table cell: content and the number of columns it spans *)
@@ -119,6 +120,7 @@ Fixpoint rinl (i : inl) : list N :=
     let n := digit' (pos_of k env) in
     str "<a href=""#fn:" ++ n ++ str """ id=""fnref:" ++ n ++ str """ title=""see footnote"" class=""footnote""><sup>" ++ n ++ str "</sup></a>"
   | ISoft => NL
+  | ITight l => flat_map rinl l
   end.
 
 (* inline elements of one run are separated by single blanks; a hard break ends its line *)
@@ -165,6 +167,7 @@ Fixpoint sinl (i : inl) : list N :=
   | IRefImage alt label _ _ => str "![" ++ alt ++ str "][" ++ label ++ [93]
   | IFoot k => str "[^fn" ++ [N.of_nat (48 + k)] ++ [93]
   | ISoft => [10]
+  | ITight l => flat_map sinl l
   end.
 
 Fixpoint sinls (l : list inl) : list N :=
@@ -316,7 +319,7 @@ Record document := mkdoc { blocks : list blk; notes : list (list inl) }.
 Fixpoint ifoots (i : inl) : list nat :=
   match i with
   | IFoot k => [k]
-  | IEmph l | IStrong l | IQuote l => flat_map ifoots l
+  | IEmph l | IStrong l | IQuote l | ITight l => flat_map ifoots l
   | ILink txt _ _ | IRefLink txt _ _ _ => flat_map ifoots txt
   | _ => []
   end.
@@ -332,7 +335,7 @@ Fixpoint idefs (i : inl) : list ldef :=
   match i with
   | IRefLink txt lab url title => flat_map idefs txt ++ [(lab, url, title)]
   | IRefImage _ lab url title => [(lab, url, title)]
-  | IEmph l | IStrong l | IQuote l => flat_map idefs l
+  | IEmph l | IStrong l | IQuote l | ITight l => flat_map idefs l
   | ILink txt _ _ => flat_map idefs txt
   | _ => []
   end.
